@@ -7,4 +7,6 @@ AllSuiteKinds == {"plain", "custom", "customsort", "customfilter"}
 \* PlaceHolder and TestCase are indistinguishable to the three utilities (both have id(), neither iterates):
 \* the larger instances keep one leaf kind
 OneLeafKind   == {"case"}
+\* sorted_tests does not look at filter_by_ids methods: the sort-only instance leaves that kind out
+SortSuiteKinds == {"plain", "custom", "customsort"}
 =============================================================================
